@@ -114,8 +114,35 @@ func parseSx(src string) ([]*Sx, error) {
 		if err != nil {
 			return out, err
 		}
-		out = append(out, e)
+		out = append(out, expandLets(e, nil))
 	}
+}
+
+// expandLets substitutes (let ((x e)...) body) bindings, as printed in z3 models.
+func expandLets(s *Sx, env map[string]*Sx) *Sx {
+	if !s.IsL {
+		if v, ok := env[s.Atom]; ok {
+			return v
+		}
+		return s
+	}
+	if len(s.List) == 3 && !s.List[0].IsL && s.List[0].Atom == "let" && s.List[1].IsL {
+		ne := map[string]*Sx{}
+		for k, v := range env {
+			ne[k] = v
+		}
+		for _, b := range s.List[1].List {
+			if b.IsL && len(b.List) == 2 {
+				ne[b.List[0].Atom] = expandLets(b.List[1], env)
+			}
+		}
+		return expandLets(s.List[2], ne)
+	}
+	r := &Sx{IsL: true}
+	for _, c := range s.List {
+		r.List = append(r.List, expandLets(c, env))
+	}
+	return r
 }
 
 // sxInt evaluates an integer literal s-expression: 5, (- 5).
@@ -181,7 +208,8 @@ func termFromModel(s *Sx, t types.Type) (*Term, error) {
 		case u.Info()&types.IsInteger != 0:
 			n, ok := sxInt(s)
 			if ok {
-				return IntB(n), nil
+				// values the formula never looks at carry no typing fact in the model: wrap them
+				return wrapTo(IntB(n), t), nil
 			}
 		case u.Info()&types.IsString != 0:
 			return sliceFromModel(s, types.Typ[types.Byte], SortOf(t))
